@@ -29,6 +29,8 @@ def run(tier, seed):
                         "sa/lhsa/gf2.py (bit-affine domain) and the rule code in sa/lhsa/props/c17.py",
                         "the textbook definition of CRC-16/ARC encoded in gf2.crc16_arc_step (reflected polynomial 0xA001)"]
     with Context(tier) as ctx:
+        from .. import selfcheck
+        selfcheck.run(ctx, rep, ['gf2'])
         mod = ctx.plain()
         rep.analysed = {"view": "plain", "function": "lha_crc16_buf"}
         fn = mod.fn("lha_crc16_buf")
